@@ -1,7 +1,7 @@
 SPEC = {
     "id": "C09",
     "drivers": [{"pkg": "internal/corerad", "test": "TestVerifC09", "newgo": True, "timeout": 1500}],
-    "extra_corr_modules": ["Corr.C07"],
+    "extra_corr_modules": ["Corr.C06"],
     "rule": "scripted Conn.ReadFrom sequences fed to the real Advertiser.Run and Monitor.Run under testing/synctest: all 256 hop "
             "limits; runs of 1..12 consecutive invalid messages of each of the 4 NDP types (beyond the 5-retry budget) followed by "
             "valid messages; 1..6 consecutive timeouts with and without a resetting message; a fatal read error; random mixed "
